@@ -160,7 +160,8 @@ func (e *eng) envCase(r layRow, i int) {
 		y.WriteString("    context: ctx\n")
 	}
 	if r.has(3) {
-		_ = ioutil.WriteFile(filepath.Join(d, "x.env"), []byte("X="+v(3)+"\n"), 0o644)
+		// (every other row: the last line of the file is not terminated)
+		_ = ioutil.WriteFile(filepath.Join(d, "x.env"), []byte("OTHER=1\nX="+v(3)+map[bool]string{true: "\n", false: ""}[i%2 == 0]), 0o644)
 		y.WriteString("    env_file: x.env\n")
 	}
 	if r.has(4) {
@@ -265,7 +266,13 @@ func (e *eng) dirCase(r layRow, sub bool) {
 	y.WriteString("    before:\n      - cd / && echo moved\n      - echo \"OBS before=[$(/bin/pwd)]\"\n    command:\n      - cd / && echo moved\n      - echo \"OBS command=[$(/bin/pwd)]\"\n    after:\n      - cd / && echo moved\n      - echo \"OBS after=[$(/bin/pwd)]\"\n")
 	y.WriteString("pipelines:\n  p:\n    - task: t\n")
 	if r.has(3) {
-		fmt.Fprintf(&y, "      dir: %s\n", yq(filepath.Join(d, "d_stage")))
+		if sub {
+			// written as a template (like the task's): a stage dir replaces the task's dir, it is
+			// not interpreted relative to it
+			y.WriteString("      dir: \"{{.Root}}/d_stage\"\n")
+		} else {
+			fmt.Fprintf(&y, "      dir: %s\n", yq(filepath.Join(d, "d_stage")))
+		}
 	}
 	_ = ioutil.WriteFile(filepath.Join(d, "tasks.yaml"), []byte(y.String()), 0o644)
 	start := d
